@@ -5,6 +5,7 @@ Driver for C03.  Requests:
   begin <Kind> <dt> <rest> <reset> <thresh> <refracT> <tau> <R> <a> <b> <slope> <icpt> <tcA> <vcA> <incA>
   step <lock T/F> <adapt T/F> <I>      → `<spike T/F> <v> <r> <adapt vec>`
   clear <keep T/F>                     → `ok`
+  setadapt <vec>                       → `ok`   (adaptation state replaced from outside)
 Doubles as 16 hex digits.
 -/
 open InfernoVerif.NeuronF InfernoVerif.Gen.Wire Proto
@@ -35,6 +36,10 @@ def dstep (st : DS) (line : String) : DS × String :=
       let (s', spk) := step st.c l a st.s i
       (⟨st.c, s'⟩, s!"{sBool spk} {sReal s'.v} {sReal s'.r} {sVec s'.adapt}")
     | _, _, _ => (st, "bad-op")
+  | ["setadapt", v] =>                 -- the adaptation buffer is replaced from outside (load_state_dict / in-place edit)
+    match pVec v with
+    | some a => (⟨st.c, { st.s with adapt := a }⟩, "ok")
+    | none => (st, "bad-op")
   | ["clear", keep] =>
     match pBool keep with
     | some k => (⟨st.c, clear st.c k st.s⟩, "ok")
